@@ -700,7 +700,7 @@ func (w *World) analyseAtomic(fn *ssa.Function, onStack map[*ssa.Function]bool) 
 }
 
 func checkC05(w *World, r *Report) {
-	r.Explanation = "Structural clause of C05: (A-1) validateTrx's error is tested before runTrx; (A-2) nothing reachable from validateTrx mutates a ledger item, calls an overlay mutator of a live ledger or writes controller state (exception: the stake limiter's running totals, whose update is the last validation step); (A-3) in every execution function (the four controllers' ExecuteTrx and what they call, runTrx, postRunTrx) no error exit is reachable while an effect is in force: effects are item mutators, overlay mutators, item field stores and calls of functions containing them; an effect is retracted on the callee's own error edge when the callee is itself fail-clean (computed recursively), on dead error edges of always-nil callees, and by the registered compensations (refund of the same amount, CancelSet of the object); two exceptions carry a structural side condition that is checked; (A-4) in EVMCtrler.ExecuteTrx every failure exit after the snapshot passes RevertToSnapshot(that snapshot) then Finish, the success exit passes Finish once and no revert; (A-5) the fee is added to the block only on the success branch, and a delivery whose execution succeeded takes that branch. ExecuteSync is among the A-3 functions; A-4 also orders Finish before the state's Finalise on success paths and requires every executed success exit to pass the message application."
+	r.Explanation = "Structural clause of C05: (A-1) validateTrx's error is tested before runTrx; (A-2) nothing reachable from validateTrx mutates a ledger item, calls an overlay mutator of a live ledger or writes controller state (exception: the stake limiter's running totals, whose update is the last validation step); (A-3) in every execution function (the four controllers' ExecuteTrx and what they call, runTrx, postRunTrx) no error exit is reachable while an effect is in force: effects are item mutators, overlay mutators, item field stores and calls of functions containing them; an effect is retracted on the callee's own error edge when the callee is itself fail-clean (computed recursively), on dead error edges of always-nil callees, and by the registered compensations (refund of the same amount, CancelSet of the object); two exceptions carry a structural side condition that is checked; (A-4) in EVMCtrler.ExecuteTrx every failure exit after the snapshot passes RevertToSnapshot(that snapshot) then Finish, the success exit passes Finish once and no revert; (A-5) the fee is added to the block only on the success branch, and a delivery whose execution succeeded takes that branch. ExecuteSync is among the A-3 functions; A-4 also orders Finish before the state's Finalise on success paths and requires every executed success exit to pass the message application. A-4 also requires that no return of the EVM controller's ExecuteTrx lies in front of the snapshot for a transaction the executor routes to it (contract type, or receiver with a code marker): a 'not mine' answer there means nobody executes and nobody charges."
 	r.NotCovered = "that the compensations restore values exactly (the idiom is recognised, not evaluated); EVM-internal reverts; NewTrxContext's creation of an empty receiver account before validation (changes no queried value)."
 
 	a1(w, r)
@@ -1142,6 +1142,33 @@ func a4(w *World, r *Report) {
 			}
 		}
 		r.Check(badS == "" && nS >= 3, "A-4", "ExecuteTrx:executed-success-applies-message", "every success exit of an executed EVM-routed transaction passes Snapshot, Prepare, the message application and Finish (nonce and fee are consumed there and nowhere else)", "an executed EVM-routed transaction can succeed without the message being applied and written back (no nonce consumed, no fee charged: the signed bytes stay valid): "+badS, fnSite(w, fn))
+	}
+	// ... and is never handed back: the executor routes these transactions here and
+	// leaves fee and nonce to the EVM (runTrx / postRunTrx decide by transaction type
+	// and the receiver's code marker alone), so for them no exit lies in front of
+	// the snapshot — a "not mine" answer means nobody executes and nobody charges
+	{
+		badR, nR := "", 0
+		for _, a := range []txAbs{{6, false, true}, {6, true, true}, {1, true, true}} {
+			ps, cpl := w.enumPaths(fn, w.evalTxCond(a), event, 20000)
+			if !cpl {
+				badR = "path enumeration incomplete"
+			}
+			for _, p := range ps {
+				if p.Term == "panic" || p.Term == "loop" {
+					continue
+				}
+				nR++
+				if !strings.Contains(strings.Join(p.Events, ","), "Snapshot") {
+					pos := "?"
+					if p.Ret != nil {
+						pos = w.InstrPos(p.Ret)
+					}
+					badR = fmt.Sprintf("for (type=%d, receiverHasCode=%v, exec=true) the return at %s is reached before the EVM was touched", a.typ, a.hasCode, pos)
+				}
+			}
+		}
+		r.Check(badR == "" && nR >= 3, "A-4", "ExecuteTrx:routed-is-executed", "a transaction the executor routes to the EVM (contract type, or receiver with a code marker) is never handed back before the snapshot: the EVM's 'not mine' test is the complement of the executor's routing test", "the EVM controller declines a transaction the executor routes to it: it is executed and charged by nobody (or settled natively without fee and nonce) while DeliverTx reports success: "+badR, fnSite(w, fn))
 	}
 	// the post-Finish error exit (marking the created contract account) is dead
 	okDead := true
